@@ -43,7 +43,7 @@ def check_build(case):
         if t[0] == 'op':
             toks.append(('op', t[1]))
         elif t[0] == 'int':
-            toks.append(int(t[1]))
+            toks.append(_iv(t[1]))
         else:
             d = bytes.fromhex(t[1]) if not t[0] == 'rep' else bytes([t[1]]) * t[2]
             toks.append(d)
@@ -70,7 +70,32 @@ def check_build(case):
         acc = acc + t
     if bytes(acc) != S.build(toks[:6]):
         raise Violation('build/add', 'CScript + token differs from the builder rules')
-    return {'nt': len(toks) >= 2, 'cls': ['build'], 'evals': 4}
+    # building is a function of the tokens alone: a build that was refused part-way (an element of an unsupported type), a build
+    # fed by a generator, and other scripts being built WHILE that generator runs leave no trace in the result
+    for bad in ([b'ab', object()], [1, None], [libtoks[0], 1.5] if libtoks else [2.5]):
+        try:
+            CScript(bad)
+        except TypeError:
+            pass
+        except Exception as e:
+            raise unexpected('build-refused', e)
+    if bytes(libx.call('build-after-refused', CScript, libtoks)[1]) != want:
+        raise Violation('build/after-refused-build', 'CScript(tokens) differs after another build was refused with TypeError')
+
+    def gen_():
+        for t in libtoks:
+            CScript([b'zz', 7, t])            # an unrelated script built in between
+            yield t
+    if bytes(libx.call('build-generator', CScript, gen_())[1]) != want:
+        raise Violation('build/generator', 'CScript(generator of tokens), with other scripts built meanwhile, differs from CScript(list of tokens)')
+    if bytes(libx.call('build-tuple', CScript, tuple(libtoks))[1]) != want:
+        raise Violation('build/tuple', 'CScript(tuple of tokens) differs from CScript(list of tokens)')
+    return {'nt': len(toks) >= 2, 'cls': ['build'], 'evals': 7}
+
+
+def _iv(x):
+    """integers travel through cases as int, or as hex text when they are too long for JSON / decimal conversion"""
+    return int(x, 0) if isinstance(x, str) else int(x)
 
 
 def lib_raw(s):
@@ -185,14 +210,14 @@ def check_raw_bytes(s, cls=None):
 
 def check_num(case):
     if 'v' in case:
-        v = int(case['v'])
+        v = _iv(case['v'])
         enc = libx.call('bn2vch', bn2vch, v)[1]
         want = S.num_enc(v)
         if enc != want:
-            raise Violation('num/encode', 'bn2vch(%d)=%s expected minimal %s' % (v, enc.hex(), want.hex()))
+            raise Violation('num/encode', 'bn2vch(%s)=%s expected minimal %s' % (hex(v)[:40], enc.hex()[:80], want.hex()[:80]))
         back = libx.call('vch2bn', vch2bn, enc)[1]
         if back != v:
-            raise Violation('num/roundtrip', 'vch2bn(bn2vch(%d))=%r' % (v, back))
+            raise Violation('num/roundtrip', 'vch2bn(bn2vch(%s)) differs' % hex(v)[:40])
         return {'nt': abs(v) > 16, 'cls': ['num-int'], 'evals': 2}
     b = bytes.fromhex(case['b'])
     got = libx.call('vch2bn', vch2bn, b)[1]
@@ -297,6 +322,14 @@ def t_exhaustive_tokens(ctx):
             ctx.evals += 1
             ctx.violation(e, {'kind': 'num', 'v': v})
     ctx.bulk(m * 2, m, {'num-int': m}, {'kind': 'num', 'v': -70000}, 'all integers -70,000..70,000 (codec, builder)' if ctx.shard == 0 else None)
+    if ctx.shard == 0:
+        for nbytes in (9, 16, 74, 75, 76, 77, 254, 255, 256, 257, 520, 521, 65535, 65536):
+            for d in (-1, 0, 1) if nbytes < 60000 else (0,):
+                for sign in (1, -1) if nbytes < 60000 else (-1,):
+                    v = hex(sign * (2 ** (8 * nbytes - 1) + d))
+                    ctx.run({'kind': 'num', 'v': v})
+                    ctx.run({'kind': 'build', 'tokens': [['int', v], ['op', 0xac]]})
+        ctx.exhaustive.append('integers +-(2^(8k-1) + {-1,0,1}) for k in {9,16,74..77,254..257,520,521,65535,65536} through codec and builder')
     k = 0
     for a in ctx.my(range(256)):
         for s in [bytes([a])] + [bytes([a, b]) for b in range(256)] + ([b''] if a == 0 else []):
@@ -312,7 +345,10 @@ def t_exhaustive_tokens(ctx):
 # ------------------------------------------------------------------ Hypothesis generators
 ints = st.one_of(st.sampled_from([0, 1, 16, 17, -1, -2, 127, 128, 255, 256, -127, -128, -129, -255, -256, 32767, 32768, -32768, 2 ** 31 - 1,
                                   2 ** 31, -2 ** 31, 2 ** 32, 2 ** 63, -2 ** 63, 2 ** 64, 2 ** 80, -2 ** 80]),
-                 st.integers(-2 ** 80, 2 ** 80), st.integers(-70000, 70000))
+                 st.integers(-2 ** 80, 2 ** 80), st.integers(-70000, 70000),
+                 # magnitudes whose script-number encoding crosses the push-opcode boundaries (75/76, 255/256, 65535/65536 bytes)
+                 st.tuples(st.sampled_from([74, 75, 76, 77, 254, 255, 256, 257, 519, 520, 521]), st.sampled_from([-1, 0, 1]),
+                           st.sampled_from([1, -1])).map(lambda t: hex(t[2] * (2 ** (8 * t[0] - 1) + t[1]))))
 datalens = st.one_of(st.sampled_from([0, 1, 2, 0x4b, 0x4c, 0x4d, 0xff, 0x100, 20, 32, 33]), st.integers(0, 80))
 token = st.one_of(st.tuples(st.just('op'), st.integers(0x4f, 0xff)).map(list), st.tuples(st.just('int'), ints).map(list),
                   datalens.flatmap(lambda n: st.binary(min_size=n, max_size=n)).map(lambda b: ['data', b.hex()]),
@@ -358,7 +394,7 @@ def s_raw(draw):
             if t[0] == 'op':
                 parts.append(bytes([t[1]]))
             elif t[0] == 'int':
-                parts.append(S.build([int(t[1])]))
+                parts.append(S.build([_iv(t[1])]))
             else:
                 d = bytes.fromhex(t[1])
                 enc = draw(st.sampled_from(['min', 'pd1', 'pd2', 'pd4']))
